@@ -56,6 +56,10 @@ func genC20(verifSeed int64, tier string, idx int) *core.Scenario {
 			}
 		}
 	}
+	if sp.DirState == "exists" && r.Intn(3) == 0 {
+		// leftovers: an earlier store of the same identifier died at some point
+		sp.Pre = append(sp.Pre, Step{K: "CrashedStore", D: 2, ID: 0, Dmg: fmt.Sprint(r.Intn(1 << 20))})
+	}
 	sp.Steps = []Step{{K: "Store", D: 0, ID: 0, NoClobber: r.Intn(4) == 0, Via: []string{"fs", "rw"}[r.Intn(2)]}}
 	if r.Intn(2) == 0 {
 		for i := 0; i < 4; i++ {
@@ -121,10 +125,38 @@ func execC20(sc *core.Scenario) *core.Result {
 	simos.Mount(pre)
 	e := &env{sp: sp, res: res, disk: pre, docs: docs, model: map[string]*entry{}}
 	e.fs = &storage.FileSystem{Options: storage.FileSystemOptions{Path: sp.Path}}
+	var alsoAllowed []*sbom.Document // complete documents an earlier, crashed store of the target may have installed
 	for _, st := range sp.Pre {
 		id := sp.IDs[st.ID%len(sp.IDs)]
 		doc := proto.Clone(docs[st.D%len(docs)]).(*sbom.Document)
 		doc.Metadata.Id = id
+		if st.K == "CrashedStore" {
+			var sel int
+			fmt.Sscan(st.Dmg, &sel)
+			// count the system calls of this store on a scratch copy, then kill it at the selected point
+			scratch := pre.Clone()
+			scratch.Killer = verifsim.Kill
+			simos.Mount(scratch)
+			e0 := &env{sp: sp, res: res, disk: scratch, docs: docs}
+			e0.fs = &storage.FileSystem{Options: storage.FileSystemOptions{Path: sp.Path}}
+			verifsim.Run(sc.Sched, []func(*verifsim.Task){func(*verifsim.Task) { e0.store(proto.Clone(doc).(*sbom.Document), false, "fs") }})
+			n := scratch.NEvents
+			if n == 0 {
+				n = 1
+			}
+			cp := &simos.CrashPoint{Event: sel % n, When: []string{"before", "after", "torn"}[(sel/n)%3], Prefix: sel % 97}
+			pre.ResetPlan()
+			pre.Crash, pre.Killer = cp, verifsim.Kill
+			simos.Mount(pre)
+			e1 := &env{sp: sp, res: res, disk: pre, docs: docs}
+			e1.fs = &storage.FileSystem{Options: storage.FileSystemOptions{Path: sp.Path}}
+			verifsim.Run(sc.Sched, []func(*verifsim.Task){func(*verifsim.Task) { e1.store(proto.Clone(doc).(*sbom.Document), false, "fs") }})
+			pre.ResetPlan()
+			simos.Mount(pre)
+			alsoAllowed = append(alsoAllowed, doc)
+			res.Probes["pre-state holds leftovers of an earlier crashed store"]++
+			continue
+		}
 		err, abort, _ := e.store(doc, false, "fs")
 		if err != nil || abort != "" {
 			// the pre-state could not be built (e.g. a store into a fresh directory fails): nothing to enumerate
@@ -269,6 +301,8 @@ func execC20(sc *core.Scenario) *core.Result {
 			oc = "new"
 		case oldDoc != nil && proto.Equal(doc, oldDoc):
 			oc = "old"
+		case matchesAny(doc, alsoAllowed):
+			oc = "old" // the complete document of the earlier store that crashed (it may have been installed)
 		case isEmptyDoc(doc):
 			oc = "empty-doc"
 		default:
@@ -342,6 +376,15 @@ func slotClass(sl slot, firstMod int) string {
 		return "in-write"
 	}
 	return "between-calls"
+}
+
+func matchesAny(d *sbom.Document, set []*sbom.Document) bool {
+	for _, x := range set {
+		if proto.Equal(d, x) {
+			return true
+		}
+	}
+	return false
 }
 
 func prefixNote(cp simos.CrashPoint) string {
